@@ -173,7 +173,7 @@ func TestC17(t *testing.T) {
 	if os_only_regress() {
 		return
 	}
-	search(t, rec, "history", budget(2000, 48000), 40, func(rt *rapid.T) {
+	search(t, rec, "history", budget(2000, 400000), 40, func(rt *rapid.T) {
 		W := rapid.Int64Range(2, 6).Draw(rt, "window")
 		C := rapid.Int64Range(2, 5).Draw(rt, "check")
 		w := newC07World(c, W, C)
